@@ -12,6 +12,14 @@ package comp
 // events with the "evb:" prefix (foreign events are ignored by the harness
 // handlers).
 //
+// Ops of a sequential history (also the replay format): sub l id / unsub l id;
+// pub; pubsub l id / pubunsub l id (the first core handler of the publication
+// (un)subscribes (l,id) while handling); pubapp sub|unsub l id / pubapp pub (an
+// application handler does it / publishes); pubq sub|unsub l id (two goroutines
+// publish at the same time: the first core handler of the first publication
+// is held inside HandleEvent until the second publisher is seen parked inside
+// Publish — goroutine dump — and then (un)subscribes (l,id)).
+//
 // NOT generated (outside the quantifier of C15, DESIGN §8): a CORE handler
 // that publishes (self-deadlock on muHandle), handlers of uncomparable value
 // types (second Subscribe panics). Harness handlers are pointers.
@@ -104,6 +112,7 @@ type evbWorld struct {
 	returned map[string]int64  // publication -> sequence number at which Publish returned
 	coreAct  map[string]func() // publication -> action of the first core handler invoked
 	appAct   map[string]func() // publication -> action of the first application handler invoked
+	open     map[string][2]int // publication -> the handler whose subscription was changed while that Publish call was in progress (either outcome is within the statement)
 	hs       map[[2]int]*evbH
 }
 
@@ -140,7 +149,7 @@ func (x *evbH) HandleEvent(p api.EventPayload) {
 }
 
 func newEvbWorld() *evbWorld {
-	w := &evbWorld{returned: map[string]int64{}, coreAct: map[string]func(){}, appAct: map[string]func(){}, hs: map[[2]int]*evbH{}}
+	w := &evbWorld{returned: map[string]int64{}, coreAct: map[string]func(){}, appAct: map[string]func(){}, open: map[string][2]int{}, hs: map[[2]int]*evbH{}}
 	for l := 0; l < 2; l++ {
 		for id := 1; id <= 3; id++ {
 			w.hs[[2]int{l, id}] = &evbH{level: l, id: id, w: w}
@@ -191,6 +200,133 @@ func (w *evbWorld) publish(ski string) bool {
 		atomic.StoreInt32(&evbWedged, 1)
 		return false
 	}
+}
+
+// evbQueuedPublish is the second publisher of an overlap step; its own frame
+// makes its goroutine recognisable in a stack dump.
+//
+//go:noinline
+func evbQueuedPublish(ski string) {
+	spine.Events.Publish(api.EventPayload{Ski: ski, EventType: api.EventTypeDataChange})
+}
+
+// evbWaitQueued waits (bounded) until the goroutine running evbQueuedPublish
+// is parked on a mutex inside Publish, i.e. the second publisher is queued
+// behind the publication whose core handler the harness holds. Nobody else
+// touches the bus at that moment, so on the code as written the lock it waits
+// for is muHandle and its snapshot has been taken.
+func evbWaitQueued(limit time.Duration) bool {
+	buf := make([]byte, 1<<20)
+	t0 := time.Now()
+	for time.Since(t0) < limit {
+		n := runtime.Stack(buf, true)
+		for _, blk := range strings.Split(string(buf[:n]), "\n\n") {
+			if !strings.Contains(blk, "comp.evbQueuedPublish") || !strings.Contains(blk, ").Publish") {
+				continue
+			}
+			hdr := blk
+			if i := strings.IndexByte(blk, '\n'); i > 0 {
+				hdr = blk[:i]
+			}
+			if strings.Contains(hdr, "Mutex.Lock") || strings.Contains(hdr, "semacquire") {
+				return true
+			}
+		}
+		runtime.Gosched()
+		time.Sleep(50 * time.Microsecond)
+	}
+	return false
+}
+
+// evbDump: the goroutines that are inside the bus, for the detail of a deadlock report.
+func evbDump() string {
+	buf := make([]byte, 4<<20)
+	n := runtime.Stack(buf, true)
+	var out []string
+	for _, blk := range strings.Split(string(buf[:n]), "\n\n") {
+		if strings.Contains(blk, "spine/events.go") {
+			if len(blk) > 900 {
+				blk = blk[:900] + " …"
+			}
+			out = append(out, blk)
+		}
+		if len(out) >= 8 {
+			break
+		}
+	}
+	return strings.Join(out, "\n--\n")
+}
+
+const evbDeadlockKey = "deadlock:core-handler-resubscribes-while-publisher-queued"
+
+// overlap drives the schedule "two goroutines publish at the same time and a
+// core handler of the first publication (un)subscribes while the second
+// publisher is queued", deterministically: the first core handler invoked for
+// ski1 reports that it is inside HandleEvent and waits; the harness starts the
+// second publisher and waits until it is parked inside Publish; then the
+// handler performs act and returns.
+//
+//	overlapped: ski1 reached a core handler (else both publications simply ran one after the other)
+//	queued:     the second publisher was seen parked before the handler went on
+//	ok:         both Publish calls returned within the watchdog
+func (w *evbWorld) overlap(ski1, ski2 string, act func()) (overlapped, queued, ok bool) {
+	inside, goOn := make(chan struct{}), make(chan struct{})
+	var once sync.Once
+	release := func() { once.Do(func() { close(goOn) }) }
+	defer release() // whatever happens, the held handler is let go
+	w.mu.Lock()
+	w.coreAct[ski1] = func() {
+		close(inside)
+		<-goOn
+		act()
+	}
+	w.mu.Unlock()
+	pub := func(ski string, f func(string)) chan struct{} {
+		done := make(chan struct{})
+		go func() {
+			f(ski)
+			w.mu.Lock()
+			w.seq++
+			w.returned[ski] = w.seq
+			w.mu.Unlock()
+			close(done)
+		}()
+		return done
+	}
+	wait := func(c chan struct{}) bool {
+		select {
+		case <-c:
+			return true
+		case <-time.After(evbWatchdog):
+			atomic.StoreInt32(&evbWedged, 1)
+			return false
+		}
+	}
+	doneA := pub(ski1, evbQueuedFirst)
+	select {
+	case <-inside:
+		overlapped = true
+	case <-doneA:
+	case <-time.After(evbWatchdog):
+		atomic.StoreInt32(&evbWedged, 1)
+		return false, false, false
+	}
+	if !overlapped {
+		w.mu.Lock()
+		delete(w.coreAct, ski1)
+		w.mu.Unlock()
+		return false, false, wait(pub(ski2, evbQueuedPublish))
+	}
+	doneB := pub(ski2, evbQueuedPublish)
+	queued = evbWaitQueued(2 * time.Second)
+	release()
+	okA := wait(doneA)
+	okB := okA && wait(doneB)
+	return true, queued, okA && okB
+}
+
+func evbQueuedFirst(ski string) {
+	spine.Events.Publish(api.EventPayload{Ski: ski, EventType: api.EventTypeDataChange})
 }
 
 type evbKey = [2]int
@@ -244,13 +380,18 @@ func (w *evbWorld) judge(r *h.Report, done []string, ski string, set map[evbKey]
 	if len(core) > 0 && minAppStart < maxCoreEnd {
 		r.SpecFail("application-before-core", done, fmt.Sprintf("an application handler of %s started before the last core handler finished", ski))
 	}
+	openK, hasOpen := w.open[ski]
 	for k, on := range set {
+		if hasOpen && k == openK {
+			continue
+		}
 		if on && count[k] == 0 {
 			r.SpecFail("not-delivered", done, fmt.Sprintf("%s did not reach handler %d/%d subscribed at publication time (%s)", ski, k[0], k[1], evbSetStr(set)))
 		}
 	}
 	for k, n := range count {
 		switch {
+		case hasOpen && k == openK && n <= 1:
 		case !set[k] && ever[k]:
 			r.SpecFail("delivered-after-unsubscribe", done, fmt.Sprintf("%s reached handler %d/%d whose unsubscription had returned", ski, k[0], k[1]))
 		case !set[k]:
@@ -456,6 +597,81 @@ func evbRunHistory(r *h.Report, d *h.Driver, ops []string, base int) bool {
 					kind += ":performed"
 				}
 			}
+		case "pubq":
+			// two publishers at once; the first core handler of the first publication (un)subscribes (l,id)
+			// while the second publisher is queued
+			k := evbKey{atoi(2), atoi(3)}
+			x := w.hs[k]
+			on := f[1] == "sub"
+			if x == nil || (f[1] != "sub" && f[1] != "unsub") {
+				panic("bad op " + op)
+			}
+			pubN += 2
+			p1, p2 := pubN-1, pubN
+			ski1, ski2 := evbPrefix+strconv.Itoa(p1), evbPrefix+strconv.Itoa(p2)
+			line = fmt.Sprintf("pubq %d %d %s %d %d", p1, p2, f[1], k[0], k[1])
+			at := map[evbKey]bool{}
+			for kk, v := range set {
+				at[kk] = v
+			}
+			done = append(done, op)
+			overlapped, queued, ok := w.overlap(ski1, ski2, func() {
+				if on {
+					evbSub(x)
+				} else {
+					evbUnsub(x)
+				}
+			})
+			if !ok {
+				r.SpecFail(evbDeadlockKey, done, fmt.Sprintf("two goroutines publish %s and %s; the first core handler of %s calls %s(%d/%d) while the second publisher is queued (seen parked: %v): a Publish did not return within %v. Goroutines inside the bus:\n%s", ski1, ski2, ski1, map[bool]string{true: "Subscribe", false: "Unsubscribe"}[on], k[0], k[1], queued, evbWatchdog, evbDump()))
+				return false
+			}
+			if !evbSettle(base) {
+				r.SpecFail("reentrant-handler-blocked", done, "the application handlers of "+ski1+" / "+ski2+" did not finish within the settle bound")
+				return false
+			}
+			hasCore := false
+			for kk, v := range at {
+				if v && kk[0] == 0 {
+					hasCore = true
+				}
+			}
+			if hasCore != overlapped {
+				r.SpecFail("not-delivered", done, fmt.Sprintf("%s: a core handler subscribed=%v, reached=%v", ski1, hasCore, overlapped))
+			}
+			impl = w.judge(r, done, ski1, at, ever, dup)
+			at2 := at
+			if overlapped {
+				// Publish(ski2) was called before the handler acted and returned after it: for (l,id) either outcome is
+				// within "subscribed at publication time"; the model comparison below is exact
+				w.mu.Lock()
+				w.open[ski2] = k
+				w.mu.Unlock()
+				doSet(k, on)
+			} else {
+				at2 = map[evbKey]bool{}
+				for kk, v := range set {
+					at2[kk] = v
+				}
+			}
+			impl2 := w.judge(r, done, ski2, at2, ever, dup)
+			impl += ";" + impl2
+			kind = "pubq"
+			if overlapped {
+				kind = "pubq:overlapped"
+				if !queued {
+					// the second publisher was not seen parked within the bound: whether its snapshot precedes the
+					// handler's action is then unknown; only the first publication is compared exactly
+					kind = "pubq:overlapped-unobserved"
+					want := d.Ask(line)
+					r.Eval(kind, "")
+					if i := strings.IndexByte(want, ';'); i < 0 || want[:i] != impl[:strings.IndexByte(impl, ';')] {
+						r.Mismatch(done, impl, want, "bus op "+op+" as "+line+" (first publication)")
+						return true
+					}
+					continue
+				}
+			}
 		default:
 			panic("bad op " + op)
 		}
@@ -478,7 +694,9 @@ func evbGenHistory(rng interface{ Intn(int) int }, n int) []string {
 	var ops []string
 	for i := 0; i < n; i++ {
 		l, id := rng.Intn(2), 1+rng.Intn(3)
-		switch k := rng.Intn(24); {
+		switch k := rng.Intn(25); {
+		case k >= 24:
+			ops = append(ops, fmt.Sprintf("pubq %s %d %d", []string{"sub", "unsub"}[rng.Intn(2)], l, id))
 		case k < 7:
 			ops = append(ops, fmt.Sprintf("sub %d %d", l, id))
 		case k < 10:
@@ -721,13 +939,91 @@ func evbStack(r *h.Report, base int) bool {
 	return true
 }
 
+// evbQueued (deterministic, no model): two goroutines publish at the same
+// time and a core handler of the first publication (un)subscribes — itself,
+// another core handler, an application handler — while the second publisher is
+// queued inside Publish. Both publications must return (watchdog) and reach
+// every handler whose subscription did not change exactly once.
+func evbQueued(r *h.Report, base int, n int) bool {
+	type variant struct {
+		name string
+		k    evbKey
+		on   bool
+	}
+	vs := []variant{{"unsubscribes itself", evbKey{0, 1}, false}, {"subscribes itself again", evbKey{0, 1}, true}, {"unsubscribes another core handler", evbKey{0, 2}, false},
+		{"subscribes a core handler", evbKey{0, 3}, true}, {"unsubscribes an application handler", evbKey{1, 1}, false}, {"subscribes an application handler", evbKey{1, 2}, true}}
+	for vi, v := range vs {
+		ops := []string{fmt.Sprintf("queued-publisher %d: sub 0 1; sub 0 2; sub 1 1; two publishers at once, core handler 0/1 %s while the second is queued", n, v.name)}
+		w := newEvbWorld()
+		set := map[evbKey]bool{{0, 1}: true, {0, 2}: true, {1, 1}: true}
+		for k := range set {
+			evbSub(w.hs[k])
+		}
+		ski1, ski2 := fmt.Sprintf("%sq%d-%d-a", evbPrefix, n, vi), fmt.Sprintf("%sq%d-%d-b", evbPrefix, n, vi)
+		x := w.hs[v.k]
+		overlapped, queued, ok := w.overlap(ski1, ski2, func() {
+			if v.on {
+				evbSub(x)
+			} else {
+				evbUnsub(x)
+			}
+		})
+		if !ok {
+			r.SpecFail(evbDeadlockKey, ops, fmt.Sprintf("core handler 0/1 %s from inside HandleEvent while a second publisher is queued (seen parked: %v): a Publish did not return within %v. Goroutines inside the bus:\n%s", v.name, queued, evbWatchdog, evbDump()))
+			return false
+		}
+		if !evbSettle(base) {
+			r.SpecFail("reentrant-handler-blocked", ops, "application handlers did not finish")
+			return false
+		}
+		if !overlapped {
+			r.SpecFail("not-delivered", ops, "the first publication did not reach the subscribed core handler 0/1")
+		}
+		ever := map[evbKey]bool{}
+		for k := range set {
+			ever[k] = true
+		}
+		w.judge(r, ops, ski1, set, ever, map[evbKey]bool{})
+		w.mu.Lock()
+		w.open[ski2] = v.k
+		w.mu.Unlock()
+		w.judge(r, ops, ski2, set, ever, map[evbKey]bool{})
+		w.cleanup()
+		kind := "queued-publisher"
+		if !queued {
+			kind += ":unobserved"
+		}
+		r.Eval(kind, "")
+	}
+	return true
+}
+
 // ---------- concurrent round (SPEC monitor only)
 
 type evbCH struct {
 	level, id int
 	got       sync.Map // ski -> *int32
 	reent     bool
-	budget    *int64 // invocations left before the handlers stop re-entering the bus (keeps a broken bus from exploding)
+	budget    *int64   // invocations left before the handlers stop re-entering the bus (keeps a broken bus from exploding)
+	toggle    []*evbCH // a re-entrant CORE handler subscribes / unsubscribes these (both levels) from inside HandleEvent
+	selfTog   bool     // a CORE handler that unsubscribes and re-subscribes itself from inside HandleEvent
+	k         int64
+}
+
+func evbCSub(x *evbCH) {
+	if x.level == 0 {
+		_ = spine.VerifSubscribeCore(x)
+	} else {
+		_ = spine.Events.Subscribe(x)
+	}
+}
+
+func evbCUnsub(x *evbCH) {
+	if x.level == 0 {
+		_ = spine.VerifUnsubscribeCore(x)
+	} else {
+		_ = spine.Events.Unsubscribe(x)
+	}
 }
 
 func (x *evbCH) HandleEvent(p api.EventPayload) {
@@ -739,6 +1035,25 @@ func (x *evbCH) HandleEvent(p api.EventPayload) {
 	v, _ := x.got.LoadOrStore(p.Ski, new(int32))
 	atomic.AddInt32(v.(*int32), 1)
 	if atomic.AddInt64(x.budget, -1) < 0 {
+		return
+	}
+	if x.level == 0 && (x.reent || x.selfTog) {
+		// call back into the bus from inside a CORE handler, i.e. on the publishing goroutine while it holds
+		// muHandle and other publishers are queued behind it ((un)subscription only: a core handler must not publish)
+		if x.selfTog {
+			evbCUnsub(x)
+			evbCSub(x)
+		}
+		if len(x.toggle) > 0 {
+			n := int(atomic.AddInt64(&x.k, 1))
+			t := x.toggle[n%len(x.toggle)]
+			if (n/len(x.toggle))%2 == 0 {
+				evbCSub(t)
+			} else {
+				evbCUnsub(t)
+			}
+			evbCSub(x) // itself: no effect
+		}
 		return
 	}
 	if x.reent && x.level == 1 { // call back into the bus from inside an application handler
@@ -770,12 +1085,17 @@ type evbSpan struct {
 // Publish call, nothing when Publish was called after its unsubscription had
 // returned and returned before its next subscription was called.
 func evbConcurrent(r *h.Report, base int, round, P, N int) bool {
-	ops := []string{fmt.Sprintf("concurrent round %d: %d publishers x %d publications, 3 churning handlers, 1 re-entrant handler", round, P, N)}
+	ops := []string{fmt.Sprintf("concurrent round %d: %d publishers x %d publications, 3 churning handlers, 1 re-entrant application handler, 2 re-entrant core handlers", round, P, N)}
 	stable := []*evbCH{{level: 0, id: 1}, {level: 1, id: 2, reent: true}, {level: 1, id: 3}}
 	churn := []*evbCH{{level: 0, id: 4}, {level: 1, id: 5}, {level: 1, id: 6}}
 	absent := &evbCH{level: 1, id: 7}
-	budget := int64(P*N) * 2 * 6 * 4 // four times what a correct bus can deliver (outer + nested publication, six handlers)
-	for _, x := range append(append([]*evbCH{absent}, stable...), churn...) {
+	// handlers (un)subscribed from inside a core handler, and a core handler that (un)subscribes itself: at most once each
+	toggled := []*evbCH{{level: 0, id: 9}, {level: 1, id: 10}}
+	selfT := &evbCH{level: 0, id: 11, selfTog: true}
+	stable = append(stable, &evbCH{level: 0, id: 8, reent: true, toggle: toggled})
+	loose := append([]*evbCH{selfT}, toggled...)
+	budget := int64(P*N) * 2 * 10 * 4 // four times what a correct bus can deliver (outer + nested publication, ten handlers)
+	for _, x := range append(append(append([]*evbCH{absent}, stable...), churn...), loose...) {
 		x.budget = &budget
 	}
 	sub := func(x *evbCH) {
@@ -795,8 +1115,9 @@ func evbConcurrent(r *h.Report, base int, round, P, N int) bool {
 	for _, x := range stable {
 		sub(x)
 	}
+	sub(selfT)
 	defer evbGuard(func() {
-		for _, x := range append(append([]*evbCH{}, stable...), churn...) {
+		for _, x := range append(append(append([]*evbCH{}, stable...), churn...), loose...) {
 			unsub(x)
 		}
 	})
@@ -832,7 +1153,7 @@ func evbConcurrent(r *h.Report, base int, round, P, N int) bool {
 	}
 	type pubSpan struct{ start, end int64 }
 	pubs := make([]pubSpan, P*N)
-	var coreLate int64
+	var coreLate, completed int64
 	var wg sync.WaitGroup
 	for g := 0; g < P; g++ {
 		wg.Add(1)
@@ -848,18 +1169,29 @@ func evbConcurrent(r *h.Report, base int, round, P, N int) bool {
 					atomic.AddInt64(&coreLate, 1)
 				}
 				pubs[n] = pubSpan{s, atomic.AddInt64(&clock, 1)}
+				atomic.AddInt64(&completed, 1)
 			}
 		}(g)
 	}
 	done := make(chan struct{})
 	go func() { wg.Wait(); close(done) }()
-	select {
-	case <-done:
-	case <-time.After(60 * time.Second):
-		close(stop)
-		atomic.StoreInt32(&evbWedged, 1)
-		r.SpecFail("publish-blocked", ops, "concurrent publishers did not finish within 60 s")
-		return false
+	// progress watchdog: with several publishers at work, no publication completing for evbWatchdog means the bus is wedged
+	last, lastAt := int64(-1), time.Now()
+wait:
+	for {
+		select {
+		case <-done:
+			break wait
+		case <-time.After(100 * time.Millisecond):
+		}
+		if c := atomic.LoadInt64(&completed); c != last {
+			last, lastAt = c, time.Now()
+		} else if time.Since(lastAt) > evbWatchdog {
+			close(stop)
+			atomic.StoreInt32(&evbWedged, 1)
+			r.SpecFail("publish-blocked", ops, fmt.Sprintf("%d goroutines publishing while core handlers (un)subscribe handlers of both levels and themselves, an application handler re-subscribes and publishes, and three handlers churn: no Publish returned for %v after %d of %d publications — the bus is wedged. Goroutines inside the bus:\n%s", P, evbWatchdog, last, P*N, evbDump()))
+			return false
+		}
 	}
 	close(stop)
 	cwg.Wait()
@@ -892,6 +1224,11 @@ func evbConcurrent(r *h.Report, base int, round, P, N int) bool {
 		}
 		if absent.n(ski) != 0 {
 			r.SpecFail("delivered-to-never-subscribed", ops, "a handler that never subscribed got "+ski)
+		}
+		for _, x := range loose {
+			if c := x.n(ski); c > 1 {
+				r.SpecFail("delivered-twice", ops, fmt.Sprintf("handler %d/%d ((un)subscribed from inside a core handler) got %s %d times", x.level, x.id, ski, c))
+			}
 		}
 		for c, x := range churn {
 			got := x.n(ski)
@@ -929,13 +1266,13 @@ func evbConcurrent(r *h.Report, base int, round, P, N int) bool {
 	return true
 }
 
-const evbRule = "sequential: random histories of subscribe/unsubscribe on both levels, publications, (un)subscription from inside the first core handler, (un)subscription and publication from inside an application handler, on the process-wide spine.Events, compared op by op with Spine.Bus (core deliveries in order | application deliveries as a set); non-trivial = a history with a publication that reached both levels and an action performed inside an application handler (distinct by op text). Concurrent rounds and re-entrancy scenarios: SPEC monitor only."
+const evbRule = "sequential: random histories of subscribe/unsubscribe on both levels, publications, (un)subscription from inside the first core handler, (un)subscription and publication from inside an application handler, two publishers at once with the first core handler (un)subscribing while the second publisher is parked inside Publish (pubq), on the process-wide spine.Events, compared op by op with Spine.Bus (core deliveries in order | application deliveries as a set); non-trivial = a history with a publication that reached both levels and an action performed inside an application handler (distinct by op text). Concurrent rounds and re-entrancy scenarios: SPEC monitor only."
 
 func evbIsScenarioReplay(ops []string) bool {
 	if len(ops) == 0 {
 		return false
 	}
-	for _, p := range []string{"concurrent", "reentrant", "stack", "application"} {
+	for _, p := range []string{"concurrent", "reentrant", "stack", "application", "queued-publisher"} {
 		if strings.HasPrefix(ops[0], p) {
 			return true
 		}
@@ -961,11 +1298,12 @@ func evbSequential(r *h.Report) bool {
 	}
 	// corpus: the shapes named by the property statement
 	corpus := [][]string{
-		{"sub 1 1", "sub 1 1", "pub", "unsub 1 1", "pub"},                                                 // double subscription, nothing after unsubscribe
-		{"sub 0 1", "sub 0 2", "sub 1 1", "sub 1 2", "pub", "pubunsub 0 2", "pub", "pubsub 0 2", "pub"},   // core order, (un)subscription inside a core handler
-		{"sub 1 1", "sub 0 1", "pubapp pub", "pubapp unsub 1 1", "pub", "pubapp sub 1 1", "pub"},          // re-entrant application handler
-		{"sub 1 1", "pubapp sub 1 2", "pub", "pubapp unsub 1 2", "pub", "pubapp pub", "unsub 1 1", "pub"}, // handler (un)subscribes another
-		{"pub", "pubsub 1 1", "pubapp pub", "sub 0 3", "pubsub 1 1", "pub", "pubunsub 0 3", "pub"},        // nothing subscribed; core subscribes an application handler
+		{"sub 1 1", "sub 1 1", "pub", "unsub 1 1", "pub"},                                                                                   // double subscription, nothing after unsubscribe
+		{"sub 0 1", "sub 0 2", "sub 1 1", "sub 1 2", "pub", "pubunsub 0 2", "pub", "pubsub 0 2", "pub"},                                     // core order, (un)subscription inside a core handler
+		{"sub 1 1", "sub 0 1", "pubapp pub", "pubapp unsub 1 1", "pub", "pubapp sub 1 1", "pub"},                                            // re-entrant application handler
+		{"sub 1 1", "pubapp sub 1 2", "pub", "pubapp unsub 1 2", "pub", "pubapp pub", "unsub 1 1", "pub"},                                   // handler (un)subscribes another
+		{"pub", "pubsub 1 1", "pubapp pub", "sub 0 3", "pubsub 1 1", "pub", "pubunsub 0 3", "pub"},                                          // nothing subscribed; core subscribes an application handler
+		{"sub 0 1", "sub 0 2", "sub 1 1", "pubq unsub 0 2", "pubq sub 1 2", "pubq unsub 0 1", "pub", "pubq sub 0 1", "pubq sub 0 1", "pub"}, // two publishers at once, core handler (un)subscribes while the second is queued
 	}
 	for _, c := range corpus {
 		if !evbRunHistory(r, d, c, base) {
@@ -976,7 +1314,7 @@ func evbSequential(r *h.Report) bool {
 		return false
 	}
 	rng := h.Rng(15)
-	hist := h.Scale(5000, 40000)
+	hist := h.Scale(3000, 40000)
 	for i := 0; i < hist; i++ {
 		if !evbRunHistory(r, d, evbGenHistory(rng, 20+rng.Intn(40)), base) {
 			return false
@@ -1013,6 +1351,9 @@ func evbSequential(r *h.Report) bool {
 	pubs := r.Dist["pub"] + r.Dist["pubsub"] + r.Dist["pubunsub"]
 	appTotal, appDone := 0, 0
 	for k, n := range r.Dist {
+		if strings.HasPrefix(k, "pubq") {
+			pubs += n
+		}
 		if strings.HasPrefix(k, "pubapp-") {
 			appTotal += n
 			pubs += n
@@ -1051,6 +1392,10 @@ func evbRounds(r *h.Report, base int) bool {
 func TestEventBus(t *testing.T) {
 	r := h.NewReport("eventbus", evbRule)
 	defer r.Write()
+	if os.Getenv("VERIF_EVB_ONLY") == "rounds" { // self-test aid: what do the concurrent rounds find on their own?
+		evbRounds(r, h.Baseline())
+		return
+	}
 	if !evbSequential(r) {
 		return
 	}
@@ -1118,6 +1463,11 @@ func evbScenarios(r *h.Report, base int) bool {
 	}
 	if !evbAsync(r, base) {
 		return false
+	}
+	for i := 0; i < h.Scale(5, 50); i++ {
+		if !evbQueued(r, base, i) {
+			return false
+		}
 	}
 	for i := 0; i < h.Scale(10, 100); i++ {
 		if !evbStack(r, base) {
